@@ -121,6 +121,8 @@ def install(I):
 
 def cnt_true(I, mask_arr, n, mask):
     """count of true cells of a bool sequence / non-zero cells of an int sequence (np.count_nonzero)."""
+    if getattr(mask, 'zerosrc', None) is not None:
+        return z3.Function('cntz', AIR, I_, I_)(mask.zerosrc, n)
     src = getattr(mask, 'eqsrc', None)
     if src is not None:
         if len(src) == 3:
@@ -635,3 +637,51 @@ def sp_pair_score(I, st, args, kwargs):
     first = I.ite(c, cb, ca)
     second = I.ite(c, cl, cb)
     return sp_fn(I, st, [VStr('fn_rank'), first, second, ar.fields['heuristic'], ar.fields['mi_stratified_sampling_ratio']], {})
+
+
+# ----------------------------------------------------------------------------- HyperLogLog (C14)
+@spec('hll_bucket')
+def sp_hll_bucket(I, st, args, kwargs):
+    return VInt(PYMOD(I.stubs._h32(args[0]), z3.IntVal(2**19)))
+
+
+@spec('hll_rho')
+def sp_hll_rho(I, st, args, kwargs):
+    h = I.stubs._h32(args[0])
+    w = z3.If(z3.IntVal(2**19) > 0, h / z3.IntVal(2**19), h / z3.IntVal(2**19))
+    return VInt(45 - I.stubs.BITLEN(w))
+
+
+CNTZ = z3.Function('cntz', AIR, I_, I_)       # number of cells i < m with A[i] == 0 (real-valued registers)
+axiom('cntz.base', z3.ForAll([_Rr], CNTZ(_Rr, 0) == 0, patterns=[CNTZ(_Rr, 0)]), 'cntz')
+axiom('cntz.step', z3.ForAll([_Rr, _m], z3.Implies(_m > 0, CNTZ(_Rr, _m) == CNTZ(_Rr, _m - 1) + z3.If(_Rr[_m - 1] == 0, 1, 0)),
+                             patterns=[CNTZ(_Rr, _m)]), 'cntz')
+HLL_EST = z3.Function('hll_estimate', I_, I_)
+
+
+@spec('cntz')
+def sp_cntz(I, st, args, kwargs):
+    return VInt(CNTZ(args[0].arr, to_term(args[1], 'int')))
+
+
+@spec('hll_estimate')
+def sp_hll_est(I, st, args, kwargs):
+    """the linear-counting estimate as computed by __len__, as a function of the number of empty registers:
+    z -> int(ceil(m * log(m / z))) - 1, or 2^19 when that is infinite."""
+    z = to_term(args[0], 'int')
+    return VInt(HLL_EST(z))
+
+
+@spec('ceil')
+def sp_ceil(I, st, args, kwargs):
+    return I.stubs.s_ceil(I, st, args, kwargs)
+
+
+@spec('npdivide')
+def sp_npdivide(I, st, args, kwargs):
+    return I.stubs.s_npdivide(I, st, args, kwargs)
+
+
+@spec('inf')
+def sp_inf(I, st, args, kwargs):
+    return VReal(z3.Real('np.inf'))
